@@ -36,7 +36,7 @@ def eval_case(case):
         ver = "1" + ver[1:]
     if case.get("rseed", 0) % 11 == 3 and not ver[0].isdigit():
         # a free-form version is any text: a line feed and a blank inside it (the model's id string is lengthened alike)
-        ins = "\n %s%%"              # ... and per-cent signs, which string formatting takes for directives
+        ins = "\n %s%%/_\\"          # ... per-cent signs, which string formatting takes for directives, and path separators
         ver = ver[:1] + ins + ver[1:]
         k = len(x["short"]) + 2
         toks = toks[:k] + list(ins) + toks[k:]
